@@ -863,7 +863,15 @@ def set_method(I, s, name, args, kw):
             set_add(I, s, x)
         return None
     if name == 'pop':
-        raise Unsupported('set.pop (order unspecified)')
+        if len(s.items) == 0:
+            I.raise_(KeyError, 'pop from an empty set')
+        if len(s.items) > 1:
+            raise Unsupported('set.pop from a set with several elements (order unspecified)')
+        if I.ctx.guards:
+            raise _interp_mod().CannotConvert()
+        s.version += 1
+        I.ctx.mutations += 1
+        return s.items.pop()
     raise Unsupported(f'set.{name}')
 
 
@@ -1958,3 +1966,20 @@ import _thread
 @model(_threading.Lock, _thread.allocate_lock)
 def m_lock(I, args, kw):
     return LockVal()
+
+
+@model(builtins.filter)
+def m_filter(I, args, kw):
+    f, seq = args
+    out = []
+    for x in I.iterate(seq):
+        keep = I.truthy(x) if f is None else I.truthy(I.call(f, [x], {}))
+        if I.ctx.branch(keep):
+            out.append(x)
+    return PList(out)
+
+
+@model(builtins.map)
+def m_map(I, args, kw):
+    f = args[0]
+    return PList([I.call(f, list(t), {}) for t in zip(*[list(I.iterate(a)) for a in args[1:]])])
